@@ -817,10 +817,14 @@ fn c17(tier: Tier) -> i32 {
         let ns_names: Vec<String> = (0..tok_strings.len()).map(|i| format!("t{i:03}")).collect();
         let mut ns_refs: Vec<&str> = ns_names.iter().map(|s| s.as_str()).collect();
         ns_refs.push("vars");
+        // a namespace whose NAME is not its Rust identifier: the embedded unit id is the name
+        ns_refs.push("dash-ns");
         let mut p = Project::new(Config::simple("en", &["en"]).with_namespaces(&ns_refs));
         let mut tables: BTreeMap<(String, String), Vec<String>> = BTreeMap::new();
         p.set_file(Some("vars"), "en", vec![("amount".into(), s(vec![var("n")])), ("both".into(), s(vec![var("a"), var("b")]))]);
         tables.insert(("en".to_string(), "vars".to_string()), vec![]);
+        p.set_file(Some("dash-ns"), "en", vec![("s".into(), st("dashed")), ("tail".into(), st("ok"))]);
+        tables.insert(("en".to_string(), "dash-ns".to_string()), vec!["dashed".to_string(), "ok".to_string()]);
         for (ns, sv) in ns_names.iter().zip(&tok_strings) {
             p.set_file(Some(ns), "en", vec![("s".into(), st(sv)), ("tail".into(), st("ok"))]);
             tables.insert(("en".to_string(), ns.clone()), vec![sv.clone(), "ok".to_string()]);
@@ -845,7 +849,19 @@ fn c17(tier: Tier) -> i32 {
             "PAGE touched [(\"en\", \"t000\"), (\"en\", \"vars\")]".to_string(),
             String::new(),
         );
-        n_pages += 3;
+        c.add("serde_json::to_string(&I18nKeys::__i18n_request_translations__(Locale::en, I18nTranslationUnitsId::dash_ns)).unwrap()".to_string(), "TABLE en dash-ns".to_string(), String::new());
+        c.add(
+            "render_page(move || { let _ = futures::executor::block_on(async { td_string!(Locale::en, dash_ns.s).await.to_string() }); })".to_string(),
+            "PAGE touched [(\"en\", \"dash-ns\")]".to_string(),
+            String::new(),
+        );
+        // the unit id also travels through serde (server function arguments): name out, name in
+        c.add(
+            "{ let j = serde_json::to_string(&I18nTranslationUnitsId::dash_ns).unwrap(); let back: Result<I18nTranslationUnitsId, _> = serde_json::from_str(&j); format!(\"{j} {}\", back.is_ok()) }".to_string(),
+            "UNITID dash-ns".to_string(),
+            "\"dash-ns\" true".to_string(),
+        );
+        n_pages += 4;
         for ns in &ns_names {
             c.add(format!("serde_json::to_string(&I18nKeys::__i18n_request_translations__(Locale::en, I18nTranslationUnitsId::{ns})).unwrap()"), format!("TABLE en {ns}"), String::new());
         }
@@ -889,6 +905,15 @@ fn c17(tier: Tier) -> i32 {
                     Err(e) => rep.violation(format!("C17/L3: server-function table of ({loc},{ns}) is not JSON: {e}"), json!({})),
                 }
                 rep.eval(1);
+            }
+        }
+        for (id, what) in &whats {
+            if let Some(ns) = what.strip_prefix("UNITID ") {
+                rep.eval(1);
+                let want = format!("\"{ns}\" true");
+                if records.get(id) != Some(&want) {
+                    rep.violation(format!("C17/L3: the translation unit id of namespace {ns} serialises / parses back as {:?}, expected {want:?}", records.get(id)), json!({}));
+                }
             }
         }
         for (id, what) in &whats {
@@ -941,7 +966,7 @@ fn c17(tier: Tier) -> i32 {
     rep.nontriv(n_pages);
     rep.sample(json!({"strings": ["\"\\", "</script>", "he said \"hi\" \\ </script> end", "\u{2028}a"]}));
     let mut cov = serde_json::Map::new();
-    cov.insert("rule".into(), json!("two probe crates built with dynamic_load + ssr (two namespaces x two locales; no namespaces): translation strings = all 196 two-character strings over 14 hostile characters plus </script>, </SCRIPT , <!--, -->, ]]>, U+2029, quotes, backtick, ${x}, newlines alone and inside a sentence with quotes and backslashes, and every sequence of <= 2 (thorough 3) tokens over <!--, <script>, <script , </script>, -->, <!-->, x; pages = <I18nContextProvider> rendered natively to HTML for every ordered subset of touched units (65 with namespaces, 5 without) and a context-driven render with a locale switch in the middle; third probe crate: every such token sequence of <= 2 tokens (+ a trailing x; thorough <= 3) alone in a namespace of its own, one page per namespace, plus a namespace whose values are variables only (empty string table) rendered alone and before / after another unit; oracle: the <script> element is cut the way the WHATWG tokenizer cuts it (script data / escaped / double escaped states: after `<!--` then `<script` an end tag no longer closes the element), its body must be `window.__LEPTOS_I18N_TRANSLATIONS = <array literal>;` read by an ECMAScript literal reader (all JS escapes, no raw line terminators in strings), and its decoded value must list exactly the touched (locale, unit) pairs, each with the unit's table as exported by the generated server function"));
+    cov.insert("rule".into(), json!("two probe crates built with dynamic_load + ssr (two namespaces x two locales; no namespaces): translation strings = all 196 two-character strings over 14 hostile characters plus </script>, </SCRIPT , <!--, -->, ]]>, U+2029, quotes, backtick, ${x}, newlines alone and inside a sentence with quotes and backslashes, and every sequence of <= 2 (thorough 3) tokens over <!--, <script>, <script , </script>, -->, <!-->, x; pages = <I18nContextProvider> rendered natively to HTML for every ordered subset of touched units (65 with namespaces, 5 without) and a context-driven render with a locale switch in the middle; third probe crate: every such token sequence of <= 2 tokens (+ a trailing x; thorough <= 3) alone in a namespace of its own, one page per namespace, plus a namespace whose values are variables only (empty string table) rendered alone and before / after another unit, and a namespace whose name (`dash-ns`) differs from its Rust identifier; oracle: the <script> element is cut the way the WHATWG tokenizer cuts it (script data / escaped / double escaped states: after `<!--` then `<script` an end tag no longer closes the element), its body must be `window.__LEPTOS_I18N_TRANSLATIONS = <array literal>;` read by an ECMAScript literal reader (all JS escapes, no raw line terminators in strings), and its decoded value must list exactly the touched (locale, unit) pairs, each with the unit's table as exported by the generated server function"));
     cov.insert("exhaustive".into(), json!(true));
     rep.finish(cov, &["the hydrate-side consumer (init_translations, serde_wasm_bindgen) needs a browser: not executed"])
 }
@@ -1304,6 +1329,45 @@ fn c18(tier: Tier) -> i32 {
         );
         built.push(c);
     }
+    // on a context: a view created under one locale and rendered after the context moved to another one must
+    // format for the locale being rendered (t_format! / tu_format! and t! over formatted keys)
+    {
+        let mut c = Case::new(&format!("c18_{}_ctx", tier.name()), p.clone());
+        c.probe.items.push_str(C18_ITEMS);
+        c.probe.items.push_str(CTX_ITEMS);
+        let ctx_locales = ["en", "fr", "de", "ar"];
+        for (i, fc) in cases.iter().enumerate() {
+            if !(fam_idx[i] < 1 && fc.macro_ok && !fc.text.contains("nonsense")) {
+                continue;
+            }
+            let (vv, dv): (String, String) = match fc.family {
+                "number" | "currency" => ("move || 1234567.891f64".into(), "1234567.891".into()),
+                "date" => ("move || the_date()".into(), "()".into()),
+                "time" => ("move || the_time()".into(), "()".into()),
+                "datetime" => ("move || the_datetime()".into(), "()".into()),
+                _ => ("move || [\"A\", \"B\", \"C\"]".into(), "&[\"A\", \"B\", \"C\"]".into()),
+            };
+            for a in ctx_locales {
+                for b in ctx_locales {
+                    if a == b {
+                        continue;
+                    }
+                    let direct = fc.direct.replace("$L", &format!("{b:?}")).replace("$V", &dv);
+                    for mac in ["t_format", "tu_format"] {
+                        let id = c.next_id;
+                        c.next_id += 1;
+                        c.probe.stmts.push(format!("cmp({id}, || {{ ctx().set_locale({}); let v = {mac}!(ctx(), {vv}, formatter: {}); ctx().set_locale({}); html(v) }}, \"\", {direct});", locale_variant(a), fc.text, locale_variant(b)));
+                        c.expected.insert(id, Expect { probe: c.probe.name.clone(), what: format!("{mac}!({}) created under {a}, rendered under {b}", fc.text), text: "^OK|^SKIP-ICU".into(), suffix: false });
+                    }
+                    let id = c.next_id;
+                    c.next_id += 1;
+                    c.probe.stmts.push(format!("cmp({id}, || {{ ctx().set_locale({}); let v = t!(ctx(), f{i}, v = {vv}); ctx().set_locale({}); html(v) }}, \"[{b}]\", {direct});", locale_variant(a), locale_variant(b)));
+                    c.expected.insert(id, Expect { probe: c.probe.name.clone(), what: format!("t!(key with {}) created under {a}, rendered under {b}", fc.text), text: "^OK|^SKIP-ICU".into(), suffix: false });
+                }
+            }
+        }
+        built.push(c);
+    }
     // documented options that ICU4X's formatter refuses: the library must not take the process down
     {
         let mut c = Case::new(&format!("c18_{}_unsupported", tier.name()), p.clone());
@@ -1364,7 +1428,7 @@ fn c18(tier: Tier) -> i32 {
     rep.nontriv(n_cases as u64 * locales.len() as u64);
     rep.sample(json!({"key": "[fr]{{ v, currency(width: narrow; currency_code: EUR) }}", "probe": "cmp(id, td_string!(Locale::fr_CA, f27, v = 1234567.891f64).to_string(), format!(\"[fr]{}\", d_cur(\"fr-CA\", CurrencyWidth::Narrow, \"EUR\", 1234567.891)))"}));
     let mut cov = serde_json::Map::new();
-    cov.insert("rule".into(), json!(format!("{n_cases} formatter declarations (every name x every documented argument value + omitted + invalid, unknown argument, swapped order) as keys of a project with locales en, fr, de, ja, ar and fr-CA (all keys null, inherits fr: fr's declaration rendered for fr-CA); for each key x locale x values (numbers 0, 1234567.891, -42; a fixed date, time, datetime; lists of 3, 1, 2, 0 items) td_string! (all), td! -> html and td_format_string! / td_format_display! / td_format! -> html (quick: the first two declarations of every family and every second or third of the rest) are compared inside the probe with a direct ICU4X call for the locale being rendered; cache histories: every sequence of length <= {} over 6 number-formatter lookups that collide pairwise on locale or on options, each element compared with its direct-ICU value whatever ran before; the number / currency / list declarations again in a probe built WITHOUT icu_compiled_data whose formatters come from a derived IcuDataProvider (set_icu_data_provider)", tier.pick(4, 5))));
+    cov.insert("rule".into(), json!(format!("{n_cases} formatter declarations (every name x every documented argument value + omitted + invalid, unknown argument, swapped order) as keys of a project with locales en, fr, de, ja, ar and fr-CA (all keys null, inherits fr: fr's declaration rendered for fr-CA); for each key x locale x values (numbers 0, 1234567.891, -42; a fixed date, time, datetime; lists of 3, 1, 2, 0 items) td_string! (all), td! -> html and td_format_string! / td_format_display! / td_format! -> html (quick: the first two declarations of every family and every second or third of the rest) are compared inside the probe with a direct ICU4X call for the locale being rendered; on a context: for the first declaration of every family and every ordered pair of 4 locales, a t_format! / tu_format! / t! view created under the first locale and rendered after set_locale to the second must format for the second; cache histories: every sequence of length <= {} over 6 number-formatter lookups that collide pairwise on locale or on options, each element compared with its direct-ICU value whatever ran before; the number / currency / list declarations again in a probe built WITHOUT icu_compiled_data whose formatters come from a derived IcuDataProvider (set_icu_data_provider)", tier.pick(4, 5))));
     cov.insert("exhaustive".into(), json!(tier == Tier::Thorough));
     rep.finish(cov, &["ICU4X formatting with compiled data is the reference (trusted base)", "thread interleavings of the cache are the loom engine's part of this check"])
 }
